@@ -566,7 +566,7 @@ FIXED = [
 ]
 
 
-def run_property(ck: Check, oracle, modes, n_quick=350, n_thorough=12000):
+def run_property(ck: Check, oracle, modes, n_quick=600, n_thorough=12000):
     ck.trusted = TRUST
     ck.prove(extra_targets=["Corr/Check_start.v"])
     results = collect(ck, ck.n(n_quick, n_thorough), modes, FIXED)
